@@ -116,7 +116,7 @@ func stripDup(q Path, closed bool) Path {
 	return out
 }
 
-func inStrips(e *InflateEv, p Pt, r4 int64) bool {
+func inStrips(e *InflateEv, p Pt, r4 int64, side int64) bool {
 	if r4 <= 0 {
 		return false
 	}
@@ -138,6 +138,9 @@ func inStrips(e *InflateEv, p Pt, r4 int64) bool {
 			t := dot(p[0]-a[0], p[1]-a[1], dx, dy)
 			l := lenUB(dx, dy)
 			if 4*t < tol4*l || 4*(dot(dx, dy, dx, dy)-t) < tol4*l {
+				continue
+			}
+			if side != 0 && sgn64(orient(a, b, p)) != side {
 				continue
 			}
 			return true
@@ -239,6 +242,25 @@ func execInflate(r *rand.Rand, e *InflateEv) {
 	outer4 := (k*ad+999)/1000 + tol4
 	polygon := e.Et == 0
 	inSrc := func(p Pt) bool { return polygon && wnPaths(p, e.Paths) != 0 }
+	// global orientation of a valid polygon set: sign of a depth-0 path
+	gsign := int64(1)
+	if polygon {
+		for k, q := range e.Paths {
+			depth := 0
+			for j, o := range e.Paths {
+				if j != k && len(q) > 0 && wnPath(q[0], o) != 0 {
+					depth++
+				}
+			}
+			if depth == 0 && area2(q) < 0 {
+				gsign = -1
+			}
+		}
+	}
+	growSide, shrinkSide := int64(0), gsign
+	if polygon {
+		growSide = -gsign
+	}
 	bad := func(p Pt) bool {
 		w := wnPaths(p, sol)
 		in := w != 0
@@ -249,7 +271,7 @@ func execInflate(r *rand.Rand, e *InflateEv) {
 			if inSrc(p) && farClosed(p, e.Paths, 8) && !in {
 				return true
 			}
-			if inStrips(e, p, ad-tol4) && !in {
+			if inStrips(e, p, ad-tol4, growSide) && !in {
 				return true
 			}
 			if in && !inSrc(p) && !nearSrc(e, p, outer4) {
@@ -259,7 +281,7 @@ func execInflate(r *rand.Rand, e *InflateEv) {
 			if !inSrc(p) && farClosed(p, e.Paths, 8) && in {
 				return true
 			}
-			if inStrips(e, p, ad-tol4) && in {
+			if inStrips(e, p, ad-tol4, shrinkSide) && in {
 				return true
 			}
 			if !in && inSrc(p) && !nearSrc(e, p, outer4) {
